@@ -63,18 +63,23 @@ fn gen_impl_display_trait<T: ToTokens>(
     error_type_path: &ErrorTypePath,
     validators: &[IntegerValidator<T>],
 ) -> TokenStream {
+    // NOTE: the bound is rendered through a binding of the inner type: an expression-valued bound made of
+    // unsuffixed literals (e.g. `(1 << 31)` or `0xFF_FFFF_FFFF`) would otherwise be typed as `i32`/`f64`
+    // inside `write!` and be shown with a wrong value, or not compile at all.
+    let tp: syn::Type = syn::parse_str(::core::any::type_name::<T>())
+        .expect("type name of a numeric type must be a valid type");
     let match_arms = validators.iter().map(|validator| match validator {
         IntegerValidator::Greater(val) => quote! {
-             #error_type_path::GreaterViolated => write!(f, "{} is too small. The value must be greater than {:#?}.", stringify!(#type_name), #val)
+             #error_type_path::GreaterViolated => write!(f, "{} is too small. The value must be greater than {:#?}.", stringify!(#type_name), { let bound: #tp = #val; bound })
         },
         IntegerValidator::GreaterOrEqual(val) => quote! {
-             #error_type_path::GreaterOrEqualViolated => write!(f, "{} is too small. The value must be greater or equal to {:#?}.", stringify!(#type_name), #val)
+             #error_type_path::GreaterOrEqualViolated => write!(f, "{} is too small. The value must be greater or equal to {:#?}.", stringify!(#type_name), { let bound: #tp = #val; bound })
         },
         IntegerValidator::Less(val) => quote! {
-             #error_type_path::LessViolated=> write!(f, "{} is too big. The value must be less than {:#?}.", stringify!(#type_name), #val)
+             #error_type_path::LessViolated=> write!(f, "{} is too big. The value must be less than {:#?}.", stringify!(#type_name), { let bound: #tp = #val; bound })
         },
         IntegerValidator::LessOrEqual(val) => quote! {
-             #error_type_path::LessOrEqualViolated=> write!(f, "{} is too big. The value must be less or equal to {:#?}.", stringify!(#type_name), #val)
+             #error_type_path::LessOrEqualViolated=> write!(f, "{} is too big. The value must be less or equal to {:#?}.", stringify!(#type_name), { let bound: #tp = #val; bound })
         },
         IntegerValidator::Predicate(_) => quote! {
              #error_type_path::PredicateViolated => write!(f, "{} failed the predicate test.", stringify!(#type_name))
